@@ -199,12 +199,18 @@ func init() {
 			MinDistinct: 100,
 			Plan: func(tier string) []core.Suite {
 				p := lcPlanFor(prop, tier)
-				return []core.Suite{{Name: "enum", N: len(lcEnum(p.Enum, undo)), Exhaustive: true}, {Name: "rand", N: p.Rand}}
+				huge := 3
+				if tier == "thorough" {
+					huge = 12
+				}
+				return []core.Suite{{Name: "enum", N: len(lcEnum(p.Enum, undo)), Exhaustive: true}, {Name: "rand", N: p.Rand}, {Name: "huge", N: huge, CaseTimeout: 900}}
 			},
 			Run: func(c *core.Ctx) {
 				p := lcPlanFor(prop, c.Tier)
 				var s lcScenario
-				if c.Suite == "enum" {
+				if c.Suite == "huge" {
+					s = genHugeLC(c.Rng, uint64(c.Seed)<<32|uint64(c.Index)|1<<53, c.Index, undo)
+				} else if c.Suite == "enum" {
 					s = lcEnum(p.Enum, undo)[c.Index]
 				} else {
 					prof := gen.Small
@@ -225,6 +231,41 @@ func init() {
 			},
 		})
 	}
+}
+
+// genHugeLC: a few small blocks, then one block whose addition count sits on an
+// integer-width boundary (2^16 and around), then small blocks again (and undo).
+func genHugeLC(rng *rand.Rand, tag uint64, idx int, undo bool) lcScenario {
+	s := lcScenario{Tag: tag}
+	m := &rm.Model{}
+	var ctr uint64
+	push := func(b gen.Block, rem []uint32) {
+		gen.ApplyToModel(m, b, tag, &ctr)
+		bb := b
+		s.Ops = append(s.Ops, lcOp{Block: &bb, Rem: rem})
+	}
+	first := 3 + rng.Intn(10)
+	var rem []uint32
+	for i := 0; i < first; i++ {
+		if rng.Intn(2) == 0 {
+			rem = append(rem, uint32(i))
+		}
+	}
+	if len(rem) == 0 {
+		rem = []uint32{0}
+	}
+	push(gen.Block{Adds: first}, rem)
+	if rng.Intn(2) == 0 {
+		push(gen.Block{Dels: gen.PickDels(rng, m, 3), Adds: rng.Intn(3)}, nil)
+	}
+	big := []int{65536, 65535, 65537, 70000, 131072, 65536 + rng.Intn(3000)}[idx%6]
+	push(gen.Block{Adds: big}, []uint32{0, uint32(1 + rng.Intn(big-2)), uint32(big - 1)})
+	push(gen.Block{Dels: gen.PickDels(rng, m, 8), Adds: 1 + rng.Intn(4)}, []uint32{0})
+	if undo {
+		s.Ops = append(s.Ops, lcOp{Undo: 2})
+		push(gen.Block{Adds: 2}, []uint32{1})
+	}
+	return s
 }
 
 // checkCached compares (hashes, proof) with the canonical proof of `want` in f.
